@@ -25,7 +25,7 @@ package rw
 // Workload:
 //	(1) EXHAUSTIVE single-rune sub-space: every rune r with a non-trivial SimpleFold
 //	    orbit or ToLower/ToUpper/ToTitle != r, patterns r.. / .r. / ..r (pads "ab"),
-//	    r / ra / ar (< 3 runes) and the 8-rune patterns r+pad7, pad7+r (pads chosen and
+//	    r / ra (< 3 runes) and the 8-rune patterns r+pad7, pad7+r (pads chosen and
 //	    filler documents added so that the two trigrams zoekt selects do not contain r),
 //	    against documents holding every partner c of r (SimpleFold orbit, To* images,
 //	    and the runes that have r among theirs) at the same position, pads in lower and
@@ -60,6 +60,7 @@ func TestVerif_C08(t *testing.T) {
 	u := c08NewUniverse()
 	t0 := time.Now()
 	c08Exhaustive(rec, u)
+	c08Dense(rec, u)
 	t1 := time.Now()
 	c08Random(rec, u)
 	// wall clock is reported for sizing only, no verdict depends on it
@@ -349,8 +350,47 @@ func c08Workers() int { return max(2, min(12, runtime.GOMAXPROCS(0)-2)) }
 type c08World struct {
 	s     zoekt.Searcher
 	text  map[string]map[string]string // scope -> file name -> text searched in that scope
+	order []string                     // file names in the order the documents were added
 	part  string
-	shard string
+
+	layoutOnce sync.Once
+	docStart   map[string][2]int // file name -> absolute (rune, byte) offset of its content in the shard
+	sampleByte []int             // absolute byte offset of rune 100*k of the concatenated contents
+}
+
+// c08RuneOffsetFrequency mirrors index.runeOffsetFrequency: the shard keeps the byte
+// offset of every 100th rune of the concatenated contents.
+const c08RuneOffsetFrequency = 100
+
+// offsetWindow returns how many bytes lie between the sampled rune offset in front of
+// byte offset off of document name and that offset. zoekt's contentProvider.findOffset
+// reads 3*100 bytes after the sample point to walk the remaining (< 100) runes.
+func (w *c08World) offsetWindow(name string, off int) int {
+	w.layoutOnce.Do(func() {
+		w.docStart = map[string][2]int{}
+		runes, bytes := 0, 0
+		for _, n := range w.order {
+			w.docStart[n] = [2]int{runes, bytes}
+			for i := range w.text["content"][n] {
+				if runes%c08RuneOffsetFrequency == 0 {
+					w.sampleByte = append(w.sampleByte, bytes+i)
+				}
+				runes++
+			}
+			bytes += len(w.text["content"][n])
+		}
+	})
+	st, ok := w.docStart[name]
+	text := w.text["content"][name]
+	if !ok || off < 0 || off > len(text) {
+		return -1
+	}
+	absRune := st[0] + utf8.RuneCountInString(text[:off])
+	k := absRune / c08RuneOffsetFrequency
+	if k >= len(w.sampleByte) {
+		return -1
+	}
+	return st[1] + off - w.sampleByte[k]
 }
 
 // c08MinFold is regexp/syntax's minFoldRune: the smallest rune of the fold orbit.
@@ -490,13 +530,21 @@ func (w *c08World) compare(rec *kit.Rec, p, scope string, forms []string) (out [
 			text := w.text[scope][n]
 			ref := c08Reference(p, text)
 			kind, class, pr, cr := c08Classify(p, text, a, b, ref)
+			family := "fold"
+			if scope == "content" && kind == "substring-misses" {
+				// not a folding matter: the occurrence lies more than 300 bytes behind the
+				// sampled rune offset, where zoekt's rune -> byte conversion runs out of data
+				if loc, _ := c08FirstDiff(a, b); w.offsetWindow(n, loc.S) > 3*c08RuneOffsetFrequency {
+					family, class = "offset", "rune-offset-window-over-300-bytes"
+				}
+			}
 			refSays := "the reference (?i) engine does not match this text"
 			if len(ref) > 0 {
 				refSays = fmt.Sprintf("the reference (?i) engine matches at %v", ref)
 			}
 			pair := fmt.Sprintf("%s pattern vs %s content", c08U(pr), c08U(cr))
 			out = append(out, c08Finding{
-				sig:  "fold/" + kind + "/" + form + "/" + scope + "/" + class,
+				sig:  family + "/" + kind + "/" + form + "/" + scope + "/" + class,
 				pair: pair + " / " + kind + " / " + class,
 				what: fmt.Sprintf("%s: case-insensitive %q (%s) in %s %q (%s): substring form %v, %s regexp form %s %v; %s", pair, p, c08Runes(p), scope, text, c08Runes(text),
 					a, form, q, b, refSays),
@@ -565,7 +613,7 @@ type c08Case struct {
 // c08CasesFor lists the patterns for rune r and the documents they are aimed at.
 func c08CasesFor(u *c08Universe, r rune) (cases []c08Case, docs []string) {
 	i := u.index[r]
-	pad := c08Pad7(i)
+	pad, padB := c08Pad7(2*i), c08Pad7(2*i+1) // the two long shapes must not share trigrams
 	mk := func(shape string, build func(c rune, upper bool) string, bothPadCases bool, filler string) {
 		cs := c08Case{r: r, shape: shape, pattern: build(r, false), targets: map[rune][]string{}}
 		for _, c := range u.partners[r] {
@@ -617,8 +665,8 @@ func c08CasesFor(u *c08Universe, r rune) (cases []c08Case, docs []string) {
 		return b.String()
 	}
 	mk("r.......", func(c rune, _ bool) string { return string(c) + pad }, false, fill(0, 1, 3, 4))
-	pr = []rune(pad + string(r))
-	mk(".......r", func(c rune, _ bool) string { return pad + string(c) }, false, fill(1, 2, 4, 5))
+	pr = []rune(padB + string(r))
+	mk(".......r", func(c rune, _ bool) string { return padB + string(c) }, false, fill(1, 2, 4, 5))
 	return cases, docs
 }
 
@@ -669,7 +717,7 @@ func c08Exhaustive(rec *kit.Rec, u *c08Universe) {
 	}
 	rec.Note("exhaustive_single_rune_subspace", map[string]any{
 		"exhaustive": true, "runes_covered": len(u.runes), "orbit_size_histogram": fmt.Sprint(orbitSizes),
-		"definition": "every rune with SimpleFold(r) != r or ToLower/ToUpper/ToTitle(r) != r, as pattern rune at every position of the shapes r.. .r. ..r r ra ar r....... .......r, against every partner rune (SimpleFold orbit, To* images, symmetric closure) at that position, in file content and in file name",
+		"definition": "every rune with SimpleFold(r) != r or ToLower/ToUpper/ToTitle(r) != r, as pattern rune at every position of the shapes r.. .r. ..r r....... .......r (content and name), r (name), ra (content), against every partner rune (SimpleFold orbit, To* images, symmetric closure) at that position, in file content and in file name",
 		"disagreeing_rune_pairs": pl,
 	})
 }
@@ -701,7 +749,7 @@ func c08ExhaustiveBatch(rec *kit.Rec, u *c08Universe, runes []rune, b int) ([]c0
 	defer s.Close()
 	rec.Count("exhaustive_shards", 1)
 	rec.Count("exhaustive_documents", int64(len(names)))
-	w := &c08World{s: s, text: map[string]map[string]string{"content": content, "name": content}, part: "exhaustive"}
+	w := &c08World{s: s, text: map[string]map[string]string{"content": content, "name": content}, order: names, part: "exhaustive"}
 	var out []c08Finding
 	for _, cs := range cases {
 		forms := c08Forms
@@ -756,6 +804,81 @@ func c08ExhaustiveBatch(rec *kit.Rec, u *c08Universe, runes []rune, b int) ([]c0
 }
 
 // ---------------------------------------------------------------------------
+// (1b) directed: scripts whose letters take 4 bytes (Deseret, Osage, Adlam, ...) packed
+// densely, so that match positions lie far (in bytes) behind the sampled rune offsets.
+
+func c08Dense(rec *kit.Rec, u *c08Universe) {
+	var wide []rune // upper-case runes of 4 bytes that fold to a 4-byte partner
+	for _, r := range u.runes {
+		if utf8.RuneLen(r) == 4 && unicode.IsUpper(r) && utf8.RuneLen(unicode.ToLower(r)) == 4 {
+			wide = append(wide, r)
+		}
+	}
+	rec.Count("dense_wide_runes", int64(len(wide)))
+	if len(wide) < 3 {
+		return
+	}
+	R := rec.Rand(70000)
+	content := map[string]string{}
+	var names []string
+	type target struct{ name, pattern string }
+	var targets []target
+	for d := 0; d < 60; d++ {
+		var b strings.Builder
+		n := 40 + R.IntN(90)
+		for i := 0; i < n; i++ {
+			b.WriteRune(unicode.ToLower(wide[R.IntN(len(wide))]))
+		}
+		// the occurrence, in upper case, unique to this document through its ordinal
+		i0 := R.IntN(len(wide))
+		occ := []rune{wide[i0], wide[(i0+1+d)%len(wide)], wide[(i0+2+2*d)%len(wide)], rune('0' + d%10), rune('0' + d/10)}
+		b.WriteString(string(occ))
+		for i := 0; i < R.IntN(20); i++ {
+			b.WriteRune(unicode.ToLower(wide[R.IntN(len(wide))]))
+		}
+		name := fmt.Sprintf("dense%02d", d)
+		content[name] = b.String()
+		names = append(names, name)
+		pat := []rune(string(occ))
+		for i := 0; i < 3; i++ {
+			pat[i] = unicode.ToLower(pat[i])
+		}
+		targets = append(targets, target{name, string(pat)})
+	}
+	dir := filepath.Join(rec.Work, "c08dense")
+	defer os.RemoveAll(dir)
+	s, err := c08Build(dir, names, content)
+	if err != nil {
+		rec.Violation("harness/build", err.Error(), nil)
+		return
+	}
+	defer s.Close()
+	nameText := map[string]string{}
+	for _, n := range names {
+		nameText[n] = n
+	}
+	w := &c08World{s: s, text: map[string]map[string]string{"content": content, "name": nameText}, order: names, part: "dense-4-byte-script"}
+	for _, t := range targets {
+		fs, sub, eng := w.compare(rec, t.pattern, "content", []string{"engine", "prefiltered", "collapsed", "captured"})
+		for _, f := range fs {
+			rec.Violation(f.sig, f.what, f.witness)
+		}
+		off := strings.Index(content[t.name], strings.ToUpper(t.pattern))
+		win := w.offsetWindow(t.name, off)
+		rec.Max("max_dense_bytes_behind_sampled_rune_offset", int64(win))
+		if win > 3*c08RuneOffsetFrequency {
+			rec.Count("dense_occurrences_more_than_300_bytes_behind_sample", 1)
+		}
+		_, sh := sub[t.name]
+		_, eh := eng[t.name]
+		rec.Count(fmt.Sprintf("dense_targets/substring=%v/engine=%v", sh, eh), 1)
+		rec.Case("dense|"+t.name, sh || eh, func() any {
+			return map[string]any{"part": "dense", "pattern_runes": c08Runes(t.pattern), "document": t.name, "bytes_behind_sample": win}
+		})
+	}
+}
+
+// ---------------------------------------------------------------------------
 // (2) random multi-script strings
 
 var c08Special = [][]rune{
@@ -765,8 +888,8 @@ var c08Special = [][]rune{
 }
 
 func c08Random(rec *kit.Rec, u *c08Universe) {
-	nShards := rec.N(40, 2000)
-	perShard := 500
+	nShards := rec.N(20, 1000)
+	perShard := 1000
 	results := make([][]c08Finding, nShards)
 	errs := make([]error, nShards)
 	var wg sync.WaitGroup
@@ -839,7 +962,7 @@ func c08RandomShard(rec *kit.Rec, u *c08Universe, k, nPat int) ([]c08Finding, er
 	for _, n := range names {
 		nameText[n] = n
 	}
-	w := &c08World{s: s, text: map[string]map[string]string{"content": content, "name": nameText}, part: "random"}
+	w := &c08World{s: s, text: map[string]map[string]string{"content": content, "name": nameText}, order: names, part: "random"}
 	rec.Count("random_shards", 1)
 	var out []c08Finding
 	for pi := 0; pi < nPat; pi++ {
